@@ -126,6 +126,7 @@ def gen_config(seed, tier='quick', family=None):
         'measure_initial': wl.random() > 0.15,
         'save_stats': wl.random() > 0.2,
         'save_psi': wl.random() > 0.12,  # False: psi only inside resume_data (save_resume_data=True)
+        'canonicalize': wl.random() < 0.2,  # canonicalize_before_measurement (on a copy of psi, says the documentation)
         'wrapped_measurement': wl.random() < 0.5,  # only used together with extra_measurements
         'truncerr_measurement': wl.random() < 0.3,  # only with extra_measurements + wrapped_measurement, time evolution
     }
@@ -215,6 +216,8 @@ def build_params(cfg, out_name='results'):
         params['measure_initial'] = False
     if is_gs and not cfg.get('save_stats', True):
         params['save_stats'] = False
+    if cfg.get('canonicalize') and bc == 'finite' and not cfg.get('mixer'):
+        params['canonicalize_before_measurement'] = True
     if not cfg.get('save_psi', True):
         params['save_psi'] = False
         params['save_resume_data'] = True
